@@ -222,18 +222,21 @@ theorem pkgFileTok_spec (t : Bytes) (f : FTok) (h : specFileTok t = some f)
     goUnescape_of_spec isDigit isOctDigit_isDigit nm.length nm f.name (Nat.le_refl _) hu
   rw [this, ← epos, ← elen]
 
-theorem pkgFileToks_spec (total : Nat) (htot : total < two64) : ∀ (ftoks : List Bytes) (files : List FTok),
+theorem pkgFileToks_spec (sname : Bytes) (hname : specStreamNameOk sname = true) (total : Nat)
+    (htot : total < two64) : ∀ (ftoks : List Bytes) (files : List FTok),
     mapOpt specFileTok ftoks = some files → (∀ f ∈ files, f.pos + f.len ≤ total) →
-    pkgFileToks total ftoks = (files, false)
+    pkgFileToks sname total ftoks = (files, false)
   | [], files, h, _ => by simp [mapOpt] at h; subst h; rfl
   | t :: rest, files, h, hin => by
     obtain ⟨f, fs, h1, h2, rfl⟩ := mapOpt_cons_some specFileTok t rest files h
     have hf := hin f (by simp)
+    obtain ⟨_, _, _, _, _, _, _, _, _, _, hfn, _⟩ := specFileTok_shape t f h1
+    have hclean := fixStreamName_clean sname f.name hname hfn
     unfold pkgFileToks
     rw [pkgFileTok_spec t f h1 (by omega) (by omega)]
     simp only []
-    rw [if_neg (by rw [Nat.mod_eq_of_lt (by omega)]; omega),
-      pkgFileToks_spec total htot rest fs h2 (fun x hx => hin x (List.mem_cons_of_mem _ hx))]
+    rw [if_neg (by omega), if_neg (by intro ⟨_, hne⟩; exact hne hclean),
+      pkgFileToks_spec sname hname total htot rest fs h2 (fun x hx => hin x (List.mem_cons_of_mem _ hx))]
 
 /-- integer-size side conditions: what `ParseInt(…, 10, 0)` / uint64 arithmetic can represent -/
 def FitsGo (s : Stream) : Prop := (∀ b ∈ s.blocks, b.size < two63) ∧ streamLen s.blocks < two64
@@ -314,7 +317,7 @@ theorem pkgParseStream_spec (line : Bytes) (s : Stream) (h : specLine line = som
                   rw [if_neg hbne, pkgBlocks_spec blocks hr2 hb1]
                   simp only []
                   rw [if_neg hftne, offsetsFrom_eq_plain blocks 0 (by omega), plainOffsets_last,
-                    pkgFileToks_spec (0 + streamLen blocks) (by omega) ftoks files hfiles
+                    pkgFileToks_spec name hname (0 + streamLen blocks) (by omega) ftoks files hfiles
                       (by intro f hf; have := hinside f hf; omega)]
                   simp [toPStream, offsetsFrom_eq_plain blocks 0 (by omega)]
                 · have hfn : ∀ f ∈ files, specFileNameOk f.name = true := by
